@@ -6,9 +6,9 @@ func init() {
 		Quick:    [][]int64{{1, 2, 3, 0}, {2, 2, 3, 0}, {3, 2, 2, 0}, {2, 3, 0, 0}, {2, 2, 2, 1}, {1, 2, 3, 1}},
 		Thorough: [][]int64{{1, 3, 6, 0}, {2, 3, 6, 0}, {3, 3, 6, 0}, {2, 2, 10, 0}, {1, 3, 4, 1}, {2, 3, 4, 1}, {3, 2, 6, 1}},
 		Unwind:   40, LoopBounds: fileLoopBounds,
-		Desc:     "real StoreManager.Deliver + policy + mem.Store or file.Store: r recipients from a menu (duplicates by case/+ext, discard-listed domain), symbolic store policy, symbolic body bytes; per-mailbox message counts, metadata, byte-exact source (trace headers + body) and size; one stored event per message",
-		Bounds:   "params (naming mode, recipients r, body length <= n, back-end: 0 memory / 1 file store over the file-system model); every byte value in the body",
-		Assumes:  []string{"enmime header decoding is a model (the delivered message carries no From/To/Subject headers); natively the real enmime parses the real bytes", "asynchronous event listeners are run to completion before the harness reads their effects"},
+		Desc:    "real StoreManager.Deliver + policy + mem.Store or file.Store: r recipients from a menu (duplicates by case/+ext, discard-listed domain), symbolic store policy, symbolic body bytes; per-mailbox message counts, metadata, byte-exact source (trace headers + body) and size; one stored event per message",
+		Bounds:  "params (naming mode, recipients r, body length <= n, back-end: 0 memory / 1 file store over the file-system model); every byte value in the body",
+		Assumes: []string{"enmime header decoding is a model (the delivered message carries no From/To/Subject headers); natively the real enmime parses the real bytes", "asynchronous event listeners are run to completion before the harness reads their effects"},
 	}
 	d1, d2, d16 := deliver, deliver, deliver
 	d1.Prop, d2.Prop, d16.Prop = "C01", "C02", "C16"
@@ -26,11 +26,11 @@ func init() {
 	register(Harness{
 		Prop: "C02", Pkg: "server/pop3", Func: "VerifC02Retr",
 		Quick:    [][]int64{{0, 0}, {3, 0}, {5, 0}, {4, 1}},
-		Thorough: [][]int64{{0, 0}, {4, 0}, {8, 0}, {6, 1}, {8, 1}},
-		Unwind:   40,
-		Desc:     "POP3 RETR/TOP of a message with n symbolic source bytes through the real session loop: un-stuffed transmitted lines == source lines (CRLF/LF normalised), single terminator",
-		Bounds:   "params (source length <= n, TOP instead of RETR); every byte value (NUL, CR, LF, dots, 8-bit)",
-		Assumes:  []string{"bufio.Scanner is a model (ScanLines semantics); its 64 KiB token limit and very long lines are outside the bounds"},
+		Thorough: [][]int64{{0, 0}, {4, 0}, {8, 0}, {6, 1}, {8, 1}}, QTThorough: 400,
+		Unwind:  40,
+		Desc:    "POP3 RETR/TOP of a message with n symbolic source bytes through the real session loop: un-stuffed transmitted lines == source lines (CRLF/LF normalised), single terminator",
+		Bounds:  "params (source length <= n, TOP instead of RETR); every byte value (NUL, CR, LF, dots, 8-bit)",
+		Assumes: []string{"bufio.Scanner is a model (ScanLines semantics); its 64 KiB token limit and very long lines are outside the bounds"},
 	}, Harness{
 		Prop: "C01", Pkg: "server/smtp", Func: "VerifC03Machine",
 		Quick:    [][]int64{{3, 5, 0, 0}, {5, 3, 0, 1}},
